@@ -21,6 +21,13 @@ def tokenType (o : Opts) : Option CT :=
 
 /-! ## inversion lemmas -/
 
+theorem authorizeSign_ok {prov : Prov} {t : Token} {o : Oidc} {p : Plan}
+    (h : authorizeSign prov t o = .ok p) : t.sub ≠ [] ∧ authorizeClaims prov t o = .ok p := by
+  unfold authorizeSign at h
+  split at h
+  · cases h
+  · rename_i hs; exact ⟨hs, h⟩
+
 theorem authorizeSign_tok (prov : Prov) (hp : prov = .jwk ∨ prov = .x5c) (t : Token) (o : Oidc) (p : Plan)
     (h : authorizeSign prov t o = .ok p) :
     ∃ opts ct, t.ssh = some opts ∧ tokenType opts = some ct ∧
@@ -28,8 +35,9 @@ theorem authorizeSign_tok (prov : Prov) (hp : prov = .jwk ∨ prov = .x5c) (t : 
             data := ⟨ct, if opts.keyID = [] then t.sub else opts.keyID,
                      if opts.principals.length > 0 then opts.principals else [t.sub]⟩,
             tpl := .default } := by
+  have h := (authorizeSign_ok h).2
   rcases hp with rfl | rfl <;>
-  · simp only [authorizeSign] at h
+  · simp only [authorizeClaims] at h
     cases hs : t.ssh with
     | none => simp [hs] at h
     | some opts =>
@@ -139,7 +147,7 @@ theorem request_cannot_extend (ca : CAKeys) (prov : Prov) (hp : prov ≠ .oidc t
     | oidc a =>
       cases a with
       | true => exact absurd rfl hp
-      | false => simp [authorizeSign] at hp1; rw [← hp1]
+      | false => have := (authorizeSign_ok hp1).2; simp [authorizeClaims] at this; rw [← this]
   simp only [applyTemplate, hd] at ht ht'
   rw [ht] at ht'; injection ht' with hcc
   subst hcc
@@ -230,10 +238,11 @@ theorem token_empty_principal_issued :
 /-- **no_empty_principal_partial.** Under the extra hypothesis that the store refuses empty keys
     (bbolt) or that the token lists no empty principal, no issued certificate has one. -/
 theorem no_empty_principal_partial (ca : CAKeys) (prov : Prov) (hp : prov = .jwk ∨ prov = .x5c) (t : Token) (o : Oidc)
-    (req : Opts) (key : KeyClass) (c : Cert) (sg : Signer) (hsub : t.sub ≠ [])
+    (req : Opts) (key : KeyClass) (c : Cert) (sg : Signer)
     (hx : ca.storeRejectsEmpty = true ∨ ∀ opts, t.ssh = some opts → [] ∉ opts.principals)
     (h : sshSign ca prov t o req key = .issued c sg) : [] ∉ c.principals := by
   obtain ⟨p, hp', hs⟩ := sshSign_issued h
+  have hsub := (authorizeSign_ok hp').1
   obtain ⟨_, _, _, _, _, _, hst⟩ := signSSH_issued hs
   rcases hx with hx | hx
   · intro hm
@@ -424,7 +433,8 @@ theorem oidc_nonadmin_fields (ca : CAKeys) (t : Token) (o : Oidc) (req : Opts) (
     c.principals = (if o.email = [] then [] else o.usernames) := by
   obtain ⟨p, hp, hs⟩ := sshSign_issued h
   obtain ⟨_, _, ht, hsel, _⟩ := signSSH_issued hs
-  simp only [authorizeSign] at hp
+  have hp := (authorizeSign_ok hp).2
+  simp only [authorizeClaims] at hp
   injection hp with hp
   subst hp
   simp only [applyTemplate] at ht
